@@ -20,7 +20,7 @@ TECHNIQUE = "exhaustive enumeration of import digraphs x providers x repository 
 CLAIM = ("Every import digraph over 2 files (all providers and modes) and over 3 files (quick: default provider; thorough: all providers) is "
          "written to disk and loaded; file-open counts, the one-instance-per-file invariant, the identity of every cross-file reference target, "
          "the self > imported > builtin lookup order and the behaviour of repeated loads with a global repository are checked on each.")
-NOTE = "Trusted: the open-counting wrapper (module attribute 'open' in textx.metamodel / textx.model) and the digraph generator. Search-path and glob_args variants of the providers are included; glob patterns in importURI values are not."
+NOTE = "Trusted: the open-counting wrapper (module attribute 'open' in textx.metamodel / textx.model) and the digraph generator. Search-path and glob_args variants of the providers are included; a glob pattern in an importURI value is covered by the two-language family (every order of the directory listing)."
 
 
 def check_load(mm, d, g, provider, builtin, counter, expect_cached=False, main=0):
@@ -159,6 +159,77 @@ def run_case(g, provider, grepo, builtin, history):
     return not bad, obs
 
 
+# ---- glob imports over files of two languages; the order of the directory listing is an environment answer -----------
+GLOB_FILES = ["e1.ent", "t2.type", "e3.ent", "t4.type"]
+
+
+def run_glob_case(order, grepo):
+    """main.ent imports "lib/*"; lib holds *.ent files (language of the importer, not registered) and *.type files (registered language);
+    order: the permutation in which the directory listing (glob) answers"""
+    import glob as _glob
+    import itertools
+
+    import textx.scoping as S
+    from textx import metamodel_from_str, register_language, clear_language_registrations
+    from textx.scoping.providers import PlainNameImportURI
+
+    d = os.path.join(core.rundir(), "c17glob-%d" % os.getpid())
+    os.makedirs(os.path.join(d, "lib"), exist_ok=True)
+    for fn in GLOB_FILES:
+        with open(os.path.join(d, "lib", fn), "w") as f:
+            f.write(("ent %s" if fn.endswith(".ent") else "type %s") % fn[:2])
+    with open(os.path.join(d, "main.ent"), "w") as f:
+        f.write('import "lib/*" ent m')
+    types_mm = metamodel_from_str("Model: types*=Ty; Ty: 'type' name=ID;")
+    ent_mm = metamodel_from_str("Model: imports*=Import ents*=Ent; Import: 'import' importURI=STRING; Ent: 'ent' name=ID;", global_repository=grepo)
+    ent_mm.register_scope_providers({"*.*": PlainNameImportURI()})
+    listing = [GLOB_FILES[i] for i in order]
+    real_glob = _glob.glob
+
+    def fake_glob(pattern, **kw):
+        got = real_glob(pattern, **kw)
+        assert sorted(os.path.basename(x) for x in got) == sorted(GLOB_FILES), got
+        return [os.path.join(os.path.dirname(got[0]), fn) for fn in listing]
+    clear_language_registrations()
+    register_language("c17types", pattern="*.type", metamodel=types_mm)
+    obs = {"directory_listing_order": listing, "global_repository": grepo}
+    bad = []
+    S.glob.glob = fake_glob
+    try:
+        m = ent_mm.model_from_file(os.path.join(d, "main.ent"))
+        loaded = {os.path.basename(x._tx_filename): x for x in m._tx_model_repository.all_models if x is not m}
+        if sorted(loaded) != sorted(GLOB_FILES):
+            bad.append(("files loaded", sorted(loaded)))
+        for fn, x in loaded.items():
+            want = types_mm if fn.endswith(".type") else ent_mm
+            if x._tx_metamodel is not want:
+                bad.append(("meta-model of " + fn, "types" if x._tx_metamodel is types_mm else "ent"))
+            names = [o.name for o in (x.types if fn.endswith(".type") and hasattr(x, "types") else getattr(x, "ents", []))]
+            if names != [fn[:2]]:
+                bad.append(("content of " + fn, names))
+    except Exception as e:
+        bad.append(("exception", "%s: %s" % (type(e).__name__, str(e).replace(d, "<dir>")[:160])))
+    finally:
+        S.glob.glob = real_glob
+        clear_language_registrations()
+    obs["failures"] = bad[:3]
+    return not bad, obs
+
+
+def work_glob(arg):
+    u = Unit()
+    for order, grepo in arg:
+        cid = ["glob-two-languages", list(order), grepo]
+        with watchdog(30):
+            ok, obs = run_glob_case(order, grepo)
+        u.case(cid, nontrivial=True, sample=obs if list(order) == [1, 0, 3, 2] else None)
+        u.transitions += 1
+        u.count("glob import over two languages")
+        if not ok:
+            u.fail(cid, {"glob": [list(order), grepo]}, sig="glob " + str(obs["failures"][0][0])[:40], what=str(obs)[:500])
+    return u
+
+
 def work(arg):
     cases = arg
     u = Unit()
@@ -196,6 +267,10 @@ def run(ctx):
                     cases.append((g, p, grepo, False, "again"))
     B = 40
     ctx.pmap(work, [cases[i:i + B] for i in range(0, len(cases), B)])
+    import itertools
+
+    gl = [(o, gr) for o in itertools.permutations(range(len(GLOB_FILES))) for gr in (False, True)]
+    ctx.pmap(work_glob, [gl[i:i + 8] for i in range(0, len(gl), 8)])
     ctx.states = ctx.evaluations
     return {
         "rule": "case = (import digraph, provider, global repository on/off, builtin models on/off, history in {one load, same file twice, main then another "
@@ -206,5 +281,7 @@ def run(ctx):
 
 
 def replay(p):
+    if "glob" in p:
+        return run_glob_case(tuple(p["glob"][0]), p["glob"][1])
     g = tuple(tuple(x) for x in p["graph"])
     return run_case(g, p["provider"], p["grepo"], p["builtin"], p["history"])
